@@ -58,6 +58,10 @@ def _set_merge(ctx):
 def h_inside(ctx):
     shape = tuple(ctx.cfg["shape"])
     e, n = _coords(ctx, shape)
+    if ctx.cfg.get("mem"):
+        from symx.harness import relayout
+
+        e, n = relayout(e, ctx.cfg["mem"]), relayout(n, "C")
     w, ee, s, nn = ctx.real("W"), ctx.real("E"), ctx.real("S"), ctx.real("N")
     _set_merge(ctx)
     try:
@@ -365,7 +369,7 @@ def _cfg_proj(tier, seed):
 
 HARNESSES = [
     Harness("get_region", h_get_region, _cfg_shapes, bounds="coordinate arrays (plus an ignored extra coordinate) of shapes up to (2,2) quick / (2,3) thorough, all entries symbolic reals"),
-    Harness("inside", h_inside, _cfg_shapes, bounds="symbolic region (valid or not) and coordinate arrays up to 2x2 / 2x3", stubs=["np.greater_equal/less_equal/logical_and merged into terms instead of forking"]),
+    Harness("inside", h_inside, lambda tier, seed: _cfg_shapes(tier, seed) + [{"shape": (2, 2), "mem": "F"}], bounds="symbolic region (valid or not) and coordinate arrays up to 2x2 / 2x3", stubs=["np.greater_equal/less_equal/logical_and merged into terms instead of forking"]),
     Harness(
         "inside_fp64",
         h_inside_fp,
